@@ -1,6 +1,8 @@
 #!/bin/bash
-# usage: tools_seed_reverify.sh [ids...]   re-confirms every stored seeded change against the current /repo HEAD in scratch worktrees (/tmp/seed/breverify-<k>, 8 at a time):
-#   demo on the clean tree exits 0; with patch.diff applied the pinned suite still passes and the demo exits non-zero.  Writes /verif/seeded/CONFIRM.log (full runs only).
+# usage: tools_benign_reverify.sh [ids...]   re-confirms every stored behaviour-preserving rewrite against the current /repo HEAD in scratch worktrees (/tmp/seed/breverify-<k>, 8 at a time):
+#   demo on the clean tree exits 0; with patch.diff applied the pinned suite still passes and the demo still exits 0.  Writes /verif/seeded_benign/CONFIRM.log (full runs only).
+
+
 if [ -n "$RV_WORKER" ]; then
   wt=/tmp/seed/breverify-$RV_WORKER
   /verif/tools_mkworktree.sh breverify-$RV_WORKER >/dev/null 2>&1
